@@ -47,16 +47,36 @@ def runHandler (kind : String) (req : Request) : HandlerResult :=
   else if kind == "m" then .response ⟨http11, 200, [], []⟩
   else .panic
 
+/-- One event of the script. `i` = a pause past the timeout; `d<hexz>` = one segment; `d<hexz>*<n>` = that segment `n`
+times; `b<hexz>` = these bytes one per segment; `s<n>:<hexz>` = these bytes in segments of `n` bytes. -/
+def parseEvent (e : String) : Option (List Bytes) :=
+  if e == "i" then some [[]]
+  else if e.startsWith "d" then
+    match (e.drop 1).toString.splitOn "*" with
+    | [h] => (unhexz h).map (fun b => [b])
+    | [h, n] =>
+      match unhexz h, n.toNat? with
+      | some b, some k => if k > 1000000 then none else some (List.replicate k b)
+      | _, _ => none
+    | _ => none
+  else if e.startsWith "b" then (unhexz (e.drop 1).toString).map (fun b => b.map (fun x => [x]))
+  else if e.startsWith "s" then
+    match (e.drop 1).toString.splitOn ":" with
+    | [n, h] =>
+      match n.toNat?, unhexz h with
+      | some k, some b => some (chunkEvery k b)
+      | _, _ => none
+    | _ => none
+  else none
+
 def parseEvents (s : String) : Option (List Bytes) :=
   if s == "-" then some []
-  else (s.splitOn ",").mapM (fun e =>
-    if e == "i" then some []
-    else if e.startsWith "d" then unhex (e.drop 1).toString
-    else none)
+  else ((s.splitOn ",").mapM parseEvent).map List.flatten
 
 def renderResult (r : ConnResult Reader String) : String :=
-  let w := ";".intercalate (r.written.map hx)
-  let d := ";".intercalate (r.dispatched.map canonRequest)
+  -- runs of equal consecutive entries are written `e*n` (see `rle`), as the harness does
+  let w := ";".intercalate (rle (r.written.map hx))
+  let d := ";".intercalate (rle (r.dispatched.map canonRequest))
   let ws := match r.ws with | some i => i | none => "-"
   let x := match r.disposition with
     | .handlerPanicked => "panic" | .parserPanicked => "panic" | .outOfFuel => "FUEL" | _ => "end"
@@ -67,7 +87,15 @@ def parseImpl (impl : String) : Option (List Bytes × Bool) :=
   match impl.splitOn "] D[" with
   | w :: _ =>
     let w := (w.drop 2).toString
-    let ws := if w.isEmpty then some [] else (w.splitOn ";").mapM unhx
+    let entry (e : String) : Option (List Bytes) :=
+      match e.splitOn "*" with
+      | [h] => (unhx h).map (fun b => [b])
+      | [h, n] =>
+        match unhx h, n.toNat? with
+        | some b, some k => if k > 1000000 then none else some (List.replicate k b)
+        | _, _ => none
+      | _ => none
+    let ws := if w.isEmpty then some [] else ((w.splitOn ";").mapM entry).map List.flatten
     ws.map (fun l => (l, impl.endsWith "X[panic]"))
   | _ => none
 
@@ -76,7 +104,8 @@ def dispatch (fn : String) (args : List String) (impl : String) : Option Verdict
   | "conn", [cfg, timeout, events, peer, oracle] =>
     match parseApp cfg, parseEvents events, peer.splitOn "|" with
     | some app, some chunks, [ip, port] =>
-      let env : Env := ⟨strBytes ip, port.toNat?.getD 0, oracleFn (parseOracle oracle)⟩
+      let tab := mkOracleTab (parseOracle oracle)
+      let env : Env := ⟨strBytes ip, port.toNat?.getD 0, tab.lookup⟩
       let c : ConnCfg String String :=
         { app := app, run := runHandler, decode := decodeStr, env := env, now := strBytes "D",
           timeout := timeout == "1" }
@@ -102,11 +131,14 @@ def dispatch (fn : String) (args : List String) (impl : String) : Option Verdict
     -- the tokio runtime, observed through a real socket: everything the server sent, concatenated
     match parseApp cfg, parseEvents events, peer.splitOn "|" with
     | some app, some chunks, [ip, port] =>
-      let env : Env := ⟨strBytes ip, port.toNat?.getD 0, oracleFn (parseOracle oracle)⟩
+      let tab := mkOracleTab (parseOracle oracle)
+      let env : Env := ⟨strBytes ip, port.toNat?.getD 0, tab.lookup⟩
       let c : ConnCfg String String :=
         { app := app, run := runHandler, decode := decodeStr, env := env, now := strBytes "D", timeout := false }
       let r := serve readerSource readerIdle c ⟨[], chunks⟩
-      let m := s!"W[{hx r.written.flatten}]"
+      -- long byte streams (long sessions, large echoed bodies) are compared by length and FNV-1a hash
+      let all := r.written.flatten
+      let m := if all.length > 8192 then s!"W[#{all.length}:{hex64 (fnv all)}]" else s!"W[{hx all}]"
       -- the model meets the spec on all inputs (serve_meets_spec), so any other byte stream violates C01
       some { model := m, spec := some (impl == m), reason := "tokio-runtime-differs-from-the-specified-byte-stream" }
     | _, _, _ => some { model := "BADARGS" }
